@@ -4,6 +4,8 @@ import json, os
 ROOT = os.path.dirname(os.path.dirname(os.path.abspath(__file__)))
 
 CLAIMED = {
+    "C05": ("§4 C05", "_handle of both task-group modules for every application outcome, app_send(None) from every stream state, crash-point sessions (every step x raise/return) on HTTP/1.1 with pipelined follow-up, HTTP/2 with a sibling stream, WebSocket handshake/session, judged by independent h11/h2/wsproto clients"),
+    "C06": ("§4 C06", "_maybe_recycle one step over all h11 state pairs; pipelines of 1..3 requests x segmentation x application variants x keep_alive_max_requests judged by an independent h11 client against a segment-aware reference"),
     "C01": ("§4 C01", "request scope/body fidelity for HTTP/1.x and HTTP/2 request templates over every (quick: strided) two-way split of the client bytes, ordered multi-cut splits of long bodies, prompt vs late-reading application, raw-header mode; filter_pseudo_headers against a reference for every short header list"),
     "C17": ("§4 C17", "_build_environ against a PEP 3333 reference over path/root_path/header/query tables, body-limit logic for every chunk length and limit (unbounded ints), run_app over 11 WSGI application shapes, non-HTTP scopes"),
     "C20": ("§4 C20", "ProxyFix trust boundary (structure of forwarding headers x trusted_hops x mode, attacker-prefix independence, caller scope untouched), Dispatcher routing over mount tables and all short paths, HTTPS redirect URL construction over scope tables"),
